@@ -17,6 +17,7 @@ func NewUriDecoder() Decoder {
 }
 
 func (dec *uriDecoder) Init(reader io.Reader) error {
+	verifYield("decoder.Init")
 	dec.reader = reader
 	dec.readAnything = false
 	dec.finished = false
@@ -24,6 +25,7 @@ func (dec *uriDecoder) Init(reader io.Reader) error {
 }
 
 func (dec *uriDecoder) Decode() (*CandidateNode, error) {
+	verifYield("decoder.Decode")
 	if dec.finished {
 		return nil, io.EOF
 	}
